@@ -68,15 +68,17 @@ static const char *exp_str; static int exp_mustfail;   /* C06: expected dest con
 
 /* ---- destination object */
 typedef struct { unsigned char *p; size_t n; int w; size_t obj; unsigned char prior[4200]; } Dest;
-static Dest D;
+static Dest D; static unsigned char before_byte = 0xEE;
 static void *mkdest(size_t dmax, int w, size_t extra_elems) {
     D.n = dmax; D.w = w; D.obj = (dmax + extra_elems) * w;
     if (D.obj > sizeof D.prior) D.obj = sizeof D.prior;
     D.p = flush(0, D.obj); memset(slot[0], 0xEE, SLOTSZ - D.obj);
     memset(D.p, 0xAA, D.obj); memcpy(D.prior, D.p, D.obj);
-    cur_dest = D.p; cur_dbytes = D.obj;
+    cur_dest = D.p; cur_dbytes = D.obj; before_byte = 0xEE;
     return D.p;
 }
+/* the byte in front of dest (ordinarily filler) holds a given value: dest as the next slot of a text block */
+static void set_before(unsigned char v) { D.p[-1] = v; before_byte = v; }
 static unsigned long dget(size_t i) { return D.w == 1 ? D.p[i] : ((uint32_t *)D.p)[i]; }
 static void begin(const char *fn, const char *rel, const char *fmt, ...) { cur_fn = fn; cur_rel = rel; exp_str = NULL; exp_mustfail = 0; va_list ap; va_start(ap, fmt); vsnprintf(cur_cs, sizeof cur_cs, fmt, ap); va_end(ap); h_n = 0; fault = 0; errno = 0; n_cases++; }
 #define CALL(stmt) do { if (sigsetjmp(jb, 1) == 0) { armed = 1; stmt; armed = 0; } } while (0)
@@ -91,6 +93,7 @@ static void judge(int usable, int failed, int code, unsigned flags, int has_dest
         if (fault == 1) { char b[64]; snprintf(b, sizeof b, "write-fault|%s", fault_slot == 0 ? "dest+end" : fault_slot > 0 ? "other-operand" : "wild"); report(b); return; }
         if (fault) return;
         if (has_dest && D.obj > D.n * D.w && memcmp(D.p + D.n * D.w, D.prior + D.n * D.w, D.obj - D.n * D.w)) report("canary-after-dmax");
+        if (has_dest) { if (D.p[-1] != before_byte) report("write-before-dest"); else for (int i = 2; i <= 64; i++) if (D.p[-i] != 0xEE) { report("write-before-dest"); break; } }
         return;
     }
     if (P == 2) { if (fault == 2) { char b[64]; snprintf(b, sizeof b, "read-fault|%s", fault_slot == 0 ? "dest+end" : fault_slot > 0 ? "source+end" : "wild"); report(b); } return; }
@@ -252,6 +255,75 @@ static void g_unicode(void) {
 }
 
 
+/* ---- the three steps of wcsnorm_s as public entry points of their own: decompose, reorder, compose */
+static void g_normparts(void) {
+    int (*dec)(wchar_t *, size_t, const wchar_t *, size_t *, int, size_t) = dlsym(L, "_wcsnorm_decompose_s_chk");
+    int (*reo)(wchar_t *, size_t, const wchar_t *, size_t, size_t) = dlsym(L, "_wcsnorm_reorder_s_chk");
+    int (*com)(wchar_t *, size_t, const wchar_t *, size_t *, int, size_t) = dlsym(L, "_wcsnorm_compose_s_chk");
+    if (!dec || !reo || !com) { fprintf(stderr, "missing wcsnorm step symbols\n"); exit(2); }
+    const size_t LIMW = 65536;     /* RSIZE_MAX_WSTR of this build is checked by the catalogue; any value far above the objects used here will do for "too large" */
+    size_t big = (size_t)1 << 40;
+    /* reorder: every sequence over {a, U+0301 (230), U+0316 (220), U+0327 (202)} of 0..4 elements, no terminator, the extent ends at the guard */
+    static const wchar_t RA[] = { 'a', 0x301, 0x316, 0x327 };
+    for (int n = 0; n <= 4; n++) { long cnt = 1; for (int i = 0; i < n; i++) cnt *= 4;
+        for (long c = 0; c < cnt; c++) {
+            wchar_t src[8]; long t = c; int lastmark = 0, run = 0, maxrun = 0; for (int i = 0; i < n; i++) { src[i] = RA[t % 4]; t /= 4; if (src[i] != 'a') { if (++run > maxrun) maxrun = run; } else run = 0; } lastmark = n && src[n - 1] != 'a';
+            const wchar_t *sp = mksrc(1, src, n ? n * sizeof(wchar_t) : 1); if (!n) sp = (const wchar_t *)((char *)sp + 1);     /* n == 0: a pointer to the very end of the readable extent */
+            for (size_t dmax = 1; dmax <= (size_t)n + 2; dmax++) {
+                char rel[96]; snprintf(rel, sizeof rel, "%s,%s,%s", dmax > (size_t)n ? "fits" : "len>=dmax", lastmark ? "ends-in-mark" : "ends-in-starter", maxrun > 1 ? "mark-run" : "single-marks");
+                begin("wcsnorm_reorder_s", rel, "normparts reorder %d %ld %zu", n, c, dmax);
+                wchar_t *d = mkdest(dmax, 4, 0); int r = 0;
+                CALL(r = reo(d, dmax, sp, n, BOSU));
+                judge(1, r != 0, r, SP | CE, 1);
+            }
+        } }
+    /* compose: sequences over {e, U+0301, U+0327, a}, length passed through *lenp */
+    static const wchar_t CA[] = { 'e', 0x301, 0x327, 'a' };
+    for (int n = 0; n <= 4; n++) { long cnt = 1; for (int i = 0; i < n; i++) cnt *= 4;
+        for (long c = 0; c < cnt; c++) for (int contig = 0; contig < 2; contig++) {
+            wchar_t src[8]; long t = c; for (int i = 0; i < n; i++) { src[i] = CA[t % 4]; t /= 4; }
+            const wchar_t *sp = mksrc(1, src, n ? n * sizeof(wchar_t) : 1); if (!n) sp = (const wchar_t *)((char *)sp + 1);
+            for (size_t dmax = 1; dmax <= (size_t)n + 2; dmax++) {
+                char rel[96]; snprintf(rel, sizeof rel, "%s,%s", dmax > (size_t)n ? "fits" : "len>=dmax", contig ? "contiguous" : "full");
+                begin("wcsnorm_compose_s", rel, "normparts compose %d %ld %zu %d", n, c, dmax, contig);
+                wchar_t *d = mkdest(dmax, 4, 0); size_t *lp = (size_t *)flush(2, sizeof(size_t)); *lp = n; int r = 0;
+                CALL(r = com(d, dmax, sp, lp, contig, BOSU));
+                judge(1, r != 0, r, SP | CE, 1);
+            }
+        } }
+    /* decompose: terminated strings over {a, U+00E9, U+1E69 (three elements), U+AC01 (three jamo)} */
+    static const wchar_t DA[] = { 'a', 0xe9, 0x1e69, 0xac01 }; static const int DN[] = { 1, 2, 3, 3 };
+    for (int n = 0; n <= 3; n++) { long cnt = 1; for (int i = 0; i < n; i++) cnt *= 4;
+        for (long c = 0; c < cnt; c++) for (int ln = 0; ln < 2; ln++) {
+            wchar_t src[8]; long t = c; size_t need = 0; for (int i = 0; i < n; i++) { src[i] = DA[t % 4]; need += DN[t % 4]; t /= 4; } src[n] = 0;
+            const wchar_t *sp = mksrc(1, src, (n + 1) * sizeof(wchar_t));
+            for (size_t dmax = 1; dmax <= need + 2; dmax++) {
+                char rel[96]; snprintf(rel, sizeof rel, "%s,%s", dmax > need ? "fits" : "need>=dmax", ln ? "lenp-null" : "lenp");
+                begin("wcsnorm_decompose_s", rel, "normparts decompose %d %ld %zu %d", n, c, dmax, ln);
+                wchar_t *d = mkdest(dmax, 4, 0); size_t *lp = ln ? NULL : (size_t *)flush(2, sizeof(size_t)); if (lp) *lp = 0x7777; int r = 0;
+                CALL(r = dec(d, dmax, sp, lp, 0, BOSU));
+                judge(1, r != 0, r, SP | CE, 1);
+            }
+        } }
+    /* entry violations of the three: dest null, dmax 0, dmax above any limit, src null, lenp null, the object size known and smaller than declared */
+    static const wchar_t two[] = { 'e', 0x301, 0 };
+    for (int fnx = 0; fnx < 3; fnx++) for (int v = 0; v < 7; v++) {
+        static const char *VN[] = { "dest-null", "dmax-zero", "dmax-above-limit", "src-null", "lenp-null", "object-smaller-than-dmax", "dest-is-src" };
+        static const char *FNN[] = { "wcsnorm_decompose_s", "wcsnorm_reorder_s", "wcsnorm_compose_s" };
+        if (v == 4 && fnx == 1) continue;      /* reorder has no length out-parameter */
+        if (v == 4 && fnx == 0) continue;      /* decompose documents a null lenp as allowed (covered above) */
+        if (v == 6 && fnx != 0) continue;      /* only decompose documents the overlap constraint */
+        begin(FNN[fnx], VN[v], "normparts violation %d %d", fnx, v);
+        size_t dmax = v == 1 ? 0 : v == 2 ? big : 4; (void)LIMW;
+        wchar_t *d = mkdest(v == 5 ? 3 : 4, 4, 0); if (v == 6) { d[0] = 'e'; d[1] = 0x301; d[2] = 0; memcpy(D.prior, D.p, D.obj); }
+        const wchar_t *sp = v == 3 ? NULL : v == 6 ? d : mksrc(1, two, sizeof two);
+        size_t *lp = v == 4 ? NULL : (size_t *)flush(2, sizeof(size_t)); if (lp) *lp = 2;
+        wchar_t *da = v == 0 ? NULL : d; size_t bos = v == 5 ? 3 * sizeof(wchar_t) : BOSU; int r = 0;
+        if (fnx == 0) CALL(r = dec(da, dmax, sp, lp, 0, bos)); else if (fnx == 1) CALL(r = reo(da, dmax, sp, 2, bos)); else CALL(r = com(da, dmax, sp, lp, 0, bos));
+        judge(v != 0 && v != 1 && v != 2 && v != 5, r != 0, r < 0 ? -r : r, v == 6 ? 0 : (SP | CE), v != 0);
+    }
+}
+
 /* ---- multibyte / wide converters */
 static void g_conv(void) {
     int (*f_mbstowcs)(size_t *, wchar_t *, size_t, const char *, size_t, size_t) = dlsym(L, "_mbstowcs_s_chk");
@@ -369,16 +441,38 @@ static void g_os(void) {
     }
     { begin("getenv_s", "unset-variable", "getenv-unset"); char *d = mkdest(8, 1, 0); size_t l = 0; int r = 0; CALL(r = getenv_s_(&l, d, 8, "VERIF_NOT_SET_ANYWHERE", BOSU)); judge(1, 0, 0, SP, 1); }
     { begin("getenv_s", "name-null", "getenv-null"); char *d = mkdest(8, 1, 0); size_t l = 0; int r = 0; CALL(r = getenv_s_(&l, d, 8, NULL, BOSU)); judge(1, r != 0, r > 0 ? r : 0, SP | CE, 1); }
-    /* gets_s: lines of length dmax-2 .. dmax+2, with and without newline */
-    for (size_t dmax = 1; dmax <= 40; dmax += (dmax < 8 ? 1 : 29)) for (long dl = -2; dl <= 2; dl++) for (int nl = 0; nl < 2; nl++) {
+    /* gets_s: lines of length dmax-2 .. dmax+2, with and without newline; contents: plain, a NUL as the first byte, a NUL in the middle;
+       dest after a text block (the byte in front of it is a newline) and over earlier multi-line contents; histories: the call follows one that already met end-of-file */
+    for (size_t dmax = 1; dmax <= 40; dmax += (dmax < 8 ? 1 : 29)) for (long dl = -2; dl <= 2; dl++) for (int nl = 0; nl < 2; nl++)
+    for (int content = 0; content < 3; content++) for (int pv = 0; pv < 3; pv++) {
         long ll = (long)dmax + dl; if (ll < 0) continue;
-        char line[64]; memset(line, 'g', ll); line[ll] = nl ? '\n' : 0; line[ll + 1] = 0;
-        char rel[64]; snprintf(rel, sizeof rel, "%s,%s", (size_t)ll < dmax ? "line<dmax" : (size_t)ll == dmax ? "line=dmax" : "line>dmax", nl ? "newline" : "eof");
-        begin("gets_s", rel, "gets %zu %ld %d", dmax, ll, nl);
-        if (stdin) fclose(stdin); stdin = fmemopen(line, strlen(line), "r");
+        if (content && ll < 1) continue; if (content == 2 && ll < 3) continue;
+        if (pv == 2 && P == 4) continue;                 /* the left-over check of C04 knows the plain prior fill only */
+        char line[64]; memset(line, 'g', ll); line[ll] = nl ? '\n' : 0; line[ll + 1] = 0; size_t bytes = ll + nl;
+        if (content == 1) line[0] = 0; else if (content == 2) line[ll / 2] = 0;
+        char rel[96]; snprintf(rel, sizeof rel, "%s,%s%s%s", (size_t)ll < dmax ? "line<dmax" : (size_t)ll == dmax ? "line=dmax" : "line>dmax", nl ? "newline" : "eof",
+                               content == 1 ? ",nul-first" : content == 2 ? ",nul-inside" : "", pv == 1 ? ",newline-before-dest" : pv == 2 ? ",old-lines-in-dest" : "");
+        begin("gets_s", rel, "gets %zu %ld %d %d %d", dmax, ll, nl, content, pv);
+        if (stdin) fclose(stdin); stdin = fmemopen(line, bytes ? bytes : 1, "r"); if (!bytes) (void)fgetc(stdin), clearerr(stdin);
         char *d = mkdest(dmax, 1, 0); char *r = NULL;
+        if (pv == 1) set_before('\n');
+        if (pv == 2) { for (size_t i = 0; i < dmax; i++) d[i] = (i % 3) == 2 ? '\n' : 'o'; memcpy(D.prior, D.p, D.obj); }
         CALL(r = gets_s_(d, dmax, BOSU));
         judge(1, r == NULL && ll > 0, 0, SP | SL, 1);
+    }
+    for (size_t dmax = 1; dmax <= 9; dmax += 4) for (int first = 0; first < 3; first++) for (int pv = 0; pv < 2; pv++) {
+        static const char *FIRST[] = { "", "ab", "ab\n" };
+        char rel[96]; snprintf(rel, sizeof rel, "second-call-at-end-of-file,%s%s", first == 0 ? "empty-input" : first == 1 ? "after-last-line-without-newline" : "after-last-line", pv ? ",old-lines-in-dest" : "");
+        begin("gets_s", rel, "gets-eof %zu %d %d", dmax, first, pv);
+        char in[8]; strcpy(in, FIRST[first]);
+        if (stdin) fclose(stdin); stdin = fmemopen(in, strlen(in) ? strlen(in) : 1, "r"); if (!in[0]) (void)fgetc(stdin);
+        char scratch[16]; char *r = NULL; h_n = 0;
+        CALL(r = gets_s_(scratch, sizeof scratch, BOSU)); if (first == 2) CALL(r = gets_s_(scratch, sizeof scratch, BOSU));    /* the call that meets end-of-file */
+        h_n = 0; fault = 0; errno = 0;
+        char *d = mkdest(dmax, 1, 0);
+        if (pv) { for (size_t i = 0; i < dmax; i++) d[i] = (i % 3) == 2 ? '\n' : 'o'; memcpy(D.prior, D.p, D.obj); }
+        CALL(r = gets_s_(d, dmax, BOSU));
+        judge(1, 0, 0, SP | SL, 1);
     }
 }
 
@@ -402,10 +496,11 @@ int main(int argc, char **argv) {
     /* replay re-runs the whole (small) group and stops at the named case: cases are cheap and self-describing */
     const char *target = NULL; char tbuf[300] = "";
     if (replay) { for (int i = a + 3; i < argc; i++) { strcat(tbuf, argv[i]); if (i + 1 < argc) strcat(tbuf, " "); } target = tbuf; verbose = 0;
-        sel = !strncmp(tbuf, "printf", 6) ? "printf" : !strncmp(tbuf, "wprintf", 7) ? "wprintf" : (!strncmp(tbuf, "towfc", 5) || !strncmp(tbuf, "wcsfc", 5) || !strncmp(tbuf, "wcsnorm", 7)) ? "unicode" : !strncmp(tbuf, "conv", 4) ? "conv" : "os"; }
+        sel = !strncmp(tbuf, "printf", 6) ? "printf" : !strncmp(tbuf, "wprintf", 7) ? "wprintf" : (!strncmp(tbuf, "towfc", 5) || !strncmp(tbuf, "wcsfc", 5) || !strncmp(tbuf, "wcsnorm", 7)) ? "unicode" : !strncmp(tbuf, "conv", 4) ? "conv" : !strncmp(tbuf, "normparts", 9) ? "normparts" : "os"; }
     if (want("printf", sel)) g_printf();
     if (want("wprintf", sel)) g_wprintf();
     if (want("unicode", sel)) g_unicode();
+    if (want("normparts", sel)) g_normparts();
     if (want("conv", sel)) g_conv();
     if (want("os", sel)) g_os();
     if (replay) {
